@@ -191,16 +191,31 @@ class AccessMixin(object):
         elif 'classmethod' in decs:
           yield st, VBound('repo', attr, recv=VClass(base.ty.name), func=fn, cls=mowner)
         else:
-          yield st, VBound('repo', attr, recv=base, func=fn, cls=mowner)
+          vb = VBound('repo', attr, recv=base, func=fn, cls=mowner)
+          if vb.term is not None:
+            st.assume(vb.term >= 5000000)     # a callable: never None/falsy, distinct from object references
+            st.assume(z3.Function('bound_method_code', I, I)(vb.term) == vb.term.arg(0))   # different methods: different values
+          yield st, vb
         return
       if isinstance(member, ast.ClassDef):
         if attr in self.reg.classes:
           yield st, VClass(attr)
           return
         raise Unsupported('nested class %s not declared' % attr)
+      if attr in self.reg.classes and self.reg.classes[attr].extern:
+        yield st, VClass(attr)       # e.g. a namedtuple class attribute declared as a record class
+        return
       # class-level constant
       yield st, self.eval_const(member.value, mod, attr)
       return
+    # a name imported in the class body (from x import Y) that the sidecar declares as a class
+    for c in self.mro(cls):
+      cn, cm = self.class_node(c)
+      if cn is not None:
+        for n in cn.body:
+          if isinstance(n, ast.ImportFrom) and any((a.asname or a.name) == attr for a in n.names) and attr in self.reg.classes:
+            yield st, VClass(attr)
+            return
     # extern class: declared constants, else extern method
     for c in self.mro(cls):
       ci = self.class_info(c)
@@ -834,6 +849,26 @@ class AccessMixin(object):
       else:
         f = z3.Function('str_' + name, I, I, z3.BoolSort())
         yield st, V(BOOL, f(s.t, args[0].t))
+    elif name == 'split' and 1 <= len(args) <= 2 and isinstance(args[0], V) and args[0].ty.k == 'str':
+      # the parts are uninterpreted functions of (string, separator, position); at least one part
+      r = self.new_ref(st)
+      res = V(Ty('list', [STR]), r)
+      n = z3.Int(fresh_name('nparts'))
+      st.assume(n >= 1)
+      if len(args) == 2:
+        st.assume(n <= num_term(args[1], False) + 1)
+      # more than one part exactly when the separator occurs
+      st.assume((n >= 2) == z3.Function('str_contains', I, I, z3.BoolSort())(s.t, args[0].t))
+      self.set_list_len(st, res, n)
+      key = self.ckey(res.ty, 'items')
+      arr = self.arr(st, key, [I, I, I])
+      part = z3.Function('split_part', I, I, I, I)
+      k = z3.Int(fresh_name('k'))
+      items = z3.Const(fresh_name('parts'), z3.ArraySort(I, I))
+      st.assume(z3.ForAll([k], z3.Select(items, k) == part(s.t, args[0].t, k), patterns=[z3.Select(items, k)]))
+      st.heap[key] = z3.Store(arr, r, items)
+      st.assume(z3.Function('split_count', I, I, I)(s.t, args[0].t) == n)
+      yield st, res
     elif name == 'lower':
       if s.py is not None:
         yield st, self.const_str(s.py.lower())
